@@ -976,6 +976,20 @@ try:
         if got != want: bad.append(("rows changed by a collection after delete+expire", want, got))
     except Exception as e:
         bad.append(("collection/scan failed after delete+expire", repr(e)[:120]))
+    # history: three commits, the MIDDLE snapshot deleted (its manifests are carried over by the later one), collection
+    p3 = os.path.join(root, "t3")
+    v = create_table(p3, schema=Schema(schema_id=1, fields=[{"id": 1, "name": "a", "type": "long", "required": False}]))
+    for i in range(3): v.append_records([{"a": 20 + i}])
+    mid = v.metadata_manager.refresh().snapshots[1].snapshot_id
+    v.snapshot_manager.delete_snapshot(mid)
+    age_all(p3)
+    want3 = sorted(r["a"] for r in v.scan())
+    try:
+        v.garbage_collect(grace_period_ms=0)
+        got3 = sorted(r["a"] for r in v.scan())
+        if got3 != want3: bad.append(("rows changed by a collection after deleting a middle snapshot", want3, got3))
+    except Exception as e:
+        bad.append(("collection/scan failed after deleting a middle snapshot", repr(e)[:120]))
     # a failing manifest read of an OLD snapshot must abort without deleting
     t.storage.write_file("data/orphan.parquet", b"x"); age_all(p)
     oldest = md.snapshots[0].manifest_list.lstrip("/")
@@ -1019,3 +1033,10 @@ register(Unit("C07", "COLLECT/abort-reach", h_collect(True), functions=[f"{GC}:G
 
 from contracts import helpers as _HC  # noqa: E402
 _HC.register_under("C05", ["COUNT/recorded_manifest_count", "COUNT/expected_entry_count", "COUNT/_check_count"])
+
+# the collector computes reachability from MetadataManager.refresh(): it must be the CURRENT version or an error
+from contracts import readpath as _rpr  # noqa: E402
+from pyvc.runner import Unit as _U2, register as _r2  # noqa: E402
+for _n, _hf, _fs in _rpr.REFRESH_UNITS:
+    if "refresh-exact" in _n:
+        _r2(_U2("C05", _n, _hf, functions=_fs, replay=None))
